@@ -424,6 +424,19 @@ pub fn run(tier: Tier) -> Report {
         .collect();
     parts.push(json!({"part": "binary-conformance", "sessions": conf.len(), "failing": fc.len()}));
     fails.extend(fc);
+    // a slow client: several MB of responses, nothing is read for 1.5 s (the pipe fills up, the
+    // responder blocks, the channels fill up, the reader loop blocks), then everything is read;
+    // every response must arrive, in order, also those queued when shutdown/exit are processed
+    {
+        let n_procs = 150;
+        let n_reqs = tier.pick(150, 400);
+        let (bad, out_bytes) = eval_slow_reader(n_procs, n_reqs);
+        execs.fetch_add(1, Ordering::Relaxed);
+        parts.push(json!({"part": "slow-reader", "requests": n_reqs, "response_bytes": out_bytes, "reader_delay_ms": 1500, "failing": bad.is_some() as u32}));
+        if let Some((k, d)) = bad {
+            fails.push(mk(format!("ordering:binary:slow-reader:{}", k), d, json!({"slow_reader": {"procedures": n_procs, "requests": n_reqs, "delay_ms": 1500}, "mode": "process"})));
+        }
+    }
     rep.states = all.len() as u64 + bursts.len() as u64;
     rep.transitions = execs.load(Ordering::Relaxed) + conf.len() as u64;
     rep.evaluations = rep.transitions;
@@ -470,7 +483,40 @@ pub fn run(tier: Tier) -> Report {
     rep
 }
 
+/// a slow client (see run()): Some((kind, detail)) on failure, and the number of output bytes
+pub fn eval_slow_reader(n_procs: usize, n_reqs: usize) -> (Option<(String, String)>, usize) {
+    let text: String = (0..n_procs).map(|i| format!("proc p{}() {{\n}}\n", i)).collect();
+    let mut s = Session::new(true);
+    s.open(URIS[0], &text);
+    let ids: Vec<i64> = (0..n_reqs).map(|_| s.request(METHODS[0], req_params(METHODS[0], URIS[0]))).collect();
+    s.msgs.push(request(100_000, "shutdown", Value::Null));
+    s.msgs.push(notification("exit", Value::Null));
+    let bytes: Vec<u8> = s.msgs.iter().flat_map(frame).collect();
+    let o = procdrv::run_slow_reader(bytes, Duration::from_millis(1500), Duration::from_secs(30));
+    let answered: Vec<i64> = o.frames.iter().filter(|f| f.get("method").is_none()).filter_map(|f| f["id"].as_i64()).collect();
+    let want: Vec<i64> = std::iter::once(0).chain(ids.iter().cloned()).chain(std::iter::once(100_000)).collect();
+    let full = o.frames.iter().filter(|f| f.get("method").is_none() && f["result"].as_array().map(|a| a.len() == n_procs).unwrap_or(false)).count();
+    let bad = if o.timed_out {
+        Some(("hang".to_string(), "no exit within 30 s after the client started to read".to_string()))
+    } else if let Some(e) = &o.frame_error {
+        Some(("malformed-output".to_string(), e.clone()))
+    } else if answered != want {
+        Some(("responses".to_string(), format!("{} of {} responses arrived (ids in order: {})", answered.len(), want.len(), answered.iter().zip(&want).all(|(a, b)| a == b))))
+    } else if full != n_reqs {
+        Some(("answers".to_string(), format!("{} of {} fold answers list all {} procedures", full, n_reqs, n_procs)))
+    } else if o.exit_code != Some(0) {
+        Some(("exit-status".to_string(), format!("{:?}", o.exit_code)))
+    } else {
+        None
+    };
+    (bad, o.raw.len())
+}
+
 pub fn replay(case: &Value) -> Vec<Failure> {
+    if let Some(sr) = case.get("slow_reader") {
+        let (bad, _) = eval_slow_reader(sr["procedures"].as_u64().unwrap_or(150) as usize, sr["requests"].as_u64().unwrap_or(150) as usize);
+        return bad.map(|(k, d)| vec![Failure { key: format!("ordering:binary:slow-reader:{}", k), case: case.clone(), detail: d }]).unwrap_or_default();
+    }
     let sc: Vec<Op> = if let Some(n) = case.get("burst").and_then(|v| v.as_u64()) {
         burst(n as usize)
     } else {
